@@ -25,6 +25,22 @@ CHECKS = {
                 text="in every reachable state, every request of the failing-request menu that the implementation rejects leaves the complete observation equal to the unchanged model, and the successor state keeps conforming in all further histories",
                 note="the fault space is the menu of failing request kinds (the library has no other failure source); requests the implementation accepts are outside this property",
                 ref="DESIGN.md 3/C08"),
+    "C13": dict(engine="E1", technique="bounded-exhaustive enumeration of all ordered pairs of distinct keys over separator-carrying component alphabets (each pair a fixed history on the real client against the reference model) plus explicit-state BFS over key-changing updates and malformed-key requests",
+                text="no two distinct keys of the alphabets collide, every malformed key is rejected with a validation error and no change, and no update leaves an item whose key attributes differ from its addressing key - on everything enumerated, with the two recorded findings",
+                note="component alphabets: 8-14 strings with '.', 5 numbers, 4 binaries; 4 schemas; identity of numeric keys by value is C12's",
+                ref="DESIGN.md 3/C13"),
+    "C15": dict(engine="E1", technique=E1,
+                text="every history of failure toggles and data operations over the alphabet (closure): configured error class while active, no read-visible change, lock-step with the model after deactivation, batch writes under internal-server failure fully reported as unprocessed, on both SDK adapters",
+                note="two keys, two tables, three batch compositions (four in thorough); BatchGetItem only through SDK v2",
+                ref="DESIGN.md 3/C15"),
+    "C18": dict(engine="E1", technique=E1,
+                text="every lifecycle history over the alphabet (closure) on table slots of one and two clients conforms to the catalogue model; isolation between tables and between clients is checked by observing every slot after every transition",
+                note="3 (quick) / 7 (thorough) valid and 3 invalid configurations, 1-2 keys per table, 2-4 slots",
+                ref="DESIGN.md 3/C18"),
+    "C19": dict(engine="E1", technique=E1M,
+                text="in every reachable content of two tables, every batch write of 1..3 (4) requests over the slots and every batch get over every subset of slots equals the item-by-item decomposition computed by the reference model",
+                note="3-4 (table,key) slots, 3 actions per slot, sizes 25/26 for the service limit; v1 has no BatchGetItem (finding)",
+                ref="DESIGN.md 3/C19"),
 }
 
 PENDING = {}
